@@ -34,7 +34,9 @@ VARIABLES
   buf,      \* writer's buffer
   shadow,   \* writer's snapshotBuffer
   mode,     \* inSnapshotMode
-  wclosed,  \* writer closed
+  wclosed,  \* the close command has been served (final flush done; nothing is written any more)
+  wdead,    \* the writer goroutine has exited (closedCh closed): Write and commands are refused from here on
+  ackpre,   \* [Clients -> ver] acknowledged when the close command was served (history, for C14)
   file,     \* the log on disk: Seq of [c, v] entries, or "RESET"
   snap,     \* <<>> or <<[Clients -> ver]>> : snapshot image on disk
   apc,      \* admin program counter
@@ -44,7 +46,7 @@ VARIABLES
   dev       \* history: named deviations exercised: "gap" = a Begin was served while some call sat between
             \* journal and apply; "close_during_admin" = shutdown while a snapshot/compaction was in progress
 
-vars == <<cpc, cver, memv, acked, q, buf, shadow, mode, wclosed, file, snap, apc, img, pend, nadmin, nflush, dev>>
+vars == <<cpc, cver, memv, acked, q, buf, shadow, mode, wclosed, wdead, ackpre, file, snap, apc, img, pend, nadmin, nflush, dev>>
 
 Zero == [c \in Clients |-> 0]
 Reset == [c |-> "RESET", v |-> 0]
@@ -64,7 +66,7 @@ Drained == IF mode THEN [b |-> buf, s |-> shadow \o q] ELSE [b |-> buf \o q, s |
 
 Init ==
   /\ cpc = [c \in Clients |-> "idle"] /\ cver = Zero /\ memv = Zero /\ acked = Zero
-  /\ q = <<>> /\ buf = <<>> /\ shadow = <<>> /\ mode = FALSE /\ wclosed = FALSE
+  /\ q = <<>> /\ buf = <<>> /\ shadow = <<>> /\ mode = FALSE /\ wclosed = FALSE /\ wdead = FALSE /\ ackpre = Zero
   /\ file = <<>> /\ snap = <<>> /\ apc = "idle" /\ img = Zero /\ pend = <<>>
   /\ nadmin = 0 /\ nflush = 0 /\ dev = {}
 
@@ -74,15 +76,19 @@ C_Start(c) ==
   /\ cpc[c] = "idle" /\ cver[c] < MaxVer
   /\ cver' = [cver EXCEPT ![c] = @ + 1]
   /\ cpc' = [cpc EXCEPT ![c] = "sending"]
-  /\ UNCHANGED <<memv, acked, q, buf, shadow, mode, wclosed, file, snap, apc, img, pend, nadmin, nflush, dev>>
+  /\ UNCHANGED <<memv, acked, q, buf, shadow, mode, wclosed, wdead, ackpre, file, snap, apc, img, pend, nadmin, nflush, dev>>
 
 \* AOF.Write: the entry enters writeCh (or the call fails because the writer is closed)
 C_Enqueue(c) ==
   /\ cpc[c] = "sending"
-  /\ IF wclosed
+  /\ IF wdead
      THEN cpc' = [cpc EXCEPT ![c] = "idle"] /\ UNCHANGED q      \* Write returns an error, nothing applied
+     ELSE IF wclosed
+     THEN \* the close command has been served but the goroutine has not exited yet: a Write that passed
+          \* the closing check earlier is still queued, acknowledged -- and dropped
+          cpc' = [cpc EXCEPT ![c] = "sent"] /\ UNCHANGED q
      ELSE q' = Append(q, [c |-> c, v |-> cver[c]]) /\ cpc' = [cpc EXCEPT ![c] = "sent"]
-  /\ UNCHANGED <<cver, memv, acked, buf, shadow, mode, wclosed, file, snap, apc, img, pend, nadmin, nflush, dev>>
+  /\ UNCHANGED <<cver, memv, acked, buf, shadow, mode, wclosed, wdead, ackpre, file, snap, apc, img, pend, nadmin, nflush, dev>>
 
 \* the memory mutation, then the call returns nil (acknowledged)
 C_Apply(c) ==
@@ -90,7 +96,7 @@ C_Apply(c) ==
   /\ memv' = [memv EXCEPT ![c] = cver[c]]
   /\ acked' = [acked EXCEPT ![c] = cver[c]]
   /\ cpc' = [cpc EXCEPT ![c] = "idle"]
-  /\ UNCHANGED <<cver, q, buf, shadow, mode, wclosed, file, snap, apc, img, pend, nadmin, nflush, dev>>
+  /\ UNCHANGED <<cver, q, buf, shadow, mode, wclosed, wdead, ackpre, file, snap, apc, img, pend, nadmin, nflush, dev>>
 
 \* ---- writer goroutine ----------------------------------------------------
 W_Recv ==
@@ -98,13 +104,13 @@ W_Recv ==
   /\ q' = Tail(q)
   /\ IF mode THEN shadow' = Append(shadow, Head(q)) /\ UNCHANGED buf
              ELSE buf' = Append(buf, Head(q)) /\ UNCHANGED shadow
-  /\ UNCHANGED <<cpc, cver, memv, acked, mode, wclosed, file, snap, apc, img, pend, nadmin, nflush, dev>>
+  /\ UNCHANGED <<cpc, cver, memv, acked, mode, wclosed, wdead, ackpre, file, snap, apc, img, pend, nadmin, nflush, dev>>
 
 \* flushTicker / syncTicker
 W_Tick ==
   /\ buf # <<>> /\ ~wclosed
   /\ file' = file \o buf /\ buf' = <<>>
-  /\ UNCHANGED <<cpc, cver, memv, acked, q, shadow, mode, wclosed, snap, apc, img, pend, nadmin, nflush, dev>>
+  /\ UNCHANGED <<cpc, cver, memv, acked, q, shadow, mode, wclosed, wdead, ackpre, snap, apc, img, pend, nadmin, nflush, dev>>
 
 \* cmdFlush / cmdSync served (explicit Flush by a caller, KVDelete, engine tickers)
 W_Flush ==
@@ -112,7 +118,7 @@ W_Flush ==
   /\ nflush' = nflush + 1
   /\ q' = <<>> /\ shadow' = Drained.s
   /\ file' = file \o Drained.b /\ buf' = <<>>
-  /\ UNCHANGED <<cpc, cver, memv, acked, mode, wclosed, snap, apc, img, pend, nadmin, dev>>
+  /\ UNCHANGED <<cpc, cver, memv, acked, mode, wclosed, wdead, ackpre, snap, apc, img, pend, nadmin, dev>>
 
 \* ---- admin: SaveSnapshot -------------------------------------------------
 InFlight == \E c \in Clients : cpc[c] = "sent"
@@ -124,19 +130,19 @@ A_Begin(kind) ==          \* BeginSnapshotMode (cmdBeginSnapshot): drain, flush,
   /\ q' = <<>> /\ file' = file \o Drained.b /\ buf' = <<>> /\ shadow' = <<>> /\ mode' = TRUE
   /\ apc' = kind \o ".begun"
   /\ dev' = IF InFlight THEN dev \cup {"gap"} ELSE dev
-  /\ UNCHANGED <<cpc, cver, memv, acked, wclosed, snap, img, pend, nflush>>
+  /\ UNCHANGED <<cpc, cver, memv, acked, wclosed, wdead, ackpre, snap, img, pend, nflush>>
 
 A_Capture(kind) ==        \* DB.Snapshot / the capture steps of RewriteAOF read memory (KV store under its lock)
   /\ apc = kind \o ".begun"
   /\ img' = memv
   /\ apc' = kind \o ".captured"
-  /\ UNCHANGED <<cpc, cver, memv, acked, q, buf, shadow, mode, wclosed, file, snap, pend, nadmin, nflush, dev>>
+  /\ UNCHANGED <<cpc, cver, memv, acked, q, buf, shadow, mode, wclosed, wdead, ackpre, file, snap, pend, nadmin, nflush, dev>>
 
 S_Rename ==               \* os.Rename(tmp, kdb)
   /\ apc = "snap.captured"
   /\ snap' = <<img>>
   /\ apc' = "snap.renamed"
-  /\ UNCHANGED <<cpc, cver, memv, acked, q, buf, shadow, mode, wclosed, file, img, pend, nadmin, nflush, dev>>
+  /\ UNCHANGED <<cpc, cver, memv, acked, q, buf, shadow, mode, wclosed, wdead, ackpre, file, img, pend, nadmin, nflush, dev>>
 
 S_Truncate ==             \* cmdTruncate: drain (into the shadow buffer), flush, truncate the log
   /\ apc = "snap.renamed"
@@ -144,7 +150,7 @@ S_Truncate ==             \* cmdTruncate: drain (into the shadow buffer), flush,
      THEN apc' = "idle" /\ UNCHANGED <<q, shadow, buf, file>>      \* command refused: procedure aborts
      ELSE /\ q' = <<>> /\ shadow' = Drained.s /\ buf' = <<>> /\ file' = <<>>
           /\ apc' = "snap.truncated"
-  /\ UNCHANGED <<cpc, cver, memv, acked, mode, wclosed, snap, img, pend, nadmin, nflush, dev>>
+  /\ UNCHANGED <<cpc, cver, memv, acked, mode, wclosed, wdead, ackpre, snap, img, pend, nadmin, nflush, dev>>
 
 R_Replace ==              \* cmdReplaceWith: drain, flush, swap in the compacted log (self-contained: RESET first)
   /\ apc = "rw.captured"
@@ -154,7 +160,7 @@ R_Replace ==              \* cmdReplaceWith: drain, flush, swap in the compacted
           /\ file' = <<Reset>> \o [i \in 1..Len(SetToSeq({c \in Clients : img[c] > 0})) |->
                                      LET c == SetToSeq({cc \in Clients : img[cc] > 0})[i] IN [c |-> c, v |-> img[c]]]
           /\ apc' = "rw.truncated"
-  /\ UNCHANGED <<cpc, cver, memv, acked, mode, wclosed, snap, img, pend, nadmin, nflush, dev>>
+  /\ UNCHANGED <<cpc, cver, memv, acked, mode, wclosed, wdead, ackpre, snap, img, pend, nadmin, nflush, dev>>
 
 A_End(kind) ==            \* EndSnapshotModeAndReappend (cmdEndSnapshotReappend): drain, move the shadow writes back
                           \* into the write buffer in order, leave snapshot mode, flush -- one step of the writer goroutine
@@ -164,7 +170,7 @@ A_End(kind) ==            \* EndSnapshotModeAndReappend (cmdEndSnapshotReappend)
      ELSE /\ q' = <<>> /\ shadow' = <<>> /\ mode' = FALSE
           /\ file' = file \o Drained.b \o Drained.s /\ buf' = <<>>
   /\ apc' = "idle"
-  /\ UNCHANGED <<cpc, cver, memv, acked, wclosed, snap, img, pend, nadmin, nflush, dev>>
+  /\ UNCHANGED <<cpc, cver, memv, acked, wclosed, wdead, ackpre, snap, img, pend, nadmin, nflush, dev>>
 
 \* (kept for the older protocol: EndSnapshotMode handing the writes back to the engine, which re-appended
 \*  them one by one -- see known_findings.json FX-14; never enabled now because apc never ends in ".ended")
@@ -174,7 +180,7 @@ A_Reappend(kind) ==
      THEN apc' = "idle" /\ UNCHANGED <<q, pend>>
      ELSE IF wclosed THEN apc' = "idle" /\ pend' = <<>> /\ UNCHANGED q
      ELSE q' = Append(q, Head(pend)) /\ pend' = Tail(pend) /\ UNCHANGED apc
-  /\ UNCHANGED <<cpc, cver, memv, acked, buf, shadow, mode, wclosed, file, snap, img, nadmin, nflush, dev>>
+  /\ UNCHANGED <<cpc, cver, memv, acked, buf, shadow, mode, wclosed, wdead, ackpre, file, snap, img, nadmin, nflush, dev>>
 
 \* ---- shutdown --------------------------------------------------------------
 \* LazyAOFWriter.Close (cmdClose): drain, merge the shadow buffer, flush, sync, close
@@ -182,13 +188,20 @@ W_Close ==
   /\ ~wclosed
   /\ (CloseWaits => apc = "idle")
   /\ wclosed' = TRUE
+  /\ ackpre' = acked
   /\ file' = file \o Drained.b \o Drained.s
   /\ q' = <<>> /\ buf' = <<>> /\ shadow' = <<>> /\ mode' = FALSE
-  /\ UNCHANGED <<cpc, cver, memv, acked, snap, apc, img, pend, nadmin, nflush, dev>>
+  /\ UNCHANGED <<cpc, cver, memv, acked, wdead, snap, apc, img, pend, nadmin, nflush, dev>>
+
+\* the run goroutine returns: closedCh is closed
+W_Dead ==
+  /\ wclosed /\ ~wdead
+  /\ wdead' = TRUE
+  /\ UNCHANGED <<cpc, cver, memv, acked, q, buf, shadow, mode, wclosed, ackpre, file, snap, apc, img, pend, nadmin, nflush, dev>>
 
 Next ==
   \/ \E c \in Clients : C_Start(c) \/ C_Enqueue(c) \/ C_Apply(c)
-  \/ W_Recv \/ W_Tick \/ W_Flush \/ W_Close
+  \/ W_Recv \/ W_Tick \/ W_Flush \/ W_Close \/ W_Dead
   \/ A_Begin("snap") \/ A_Capture("snap") \/ S_Rename \/ S_Truncate \/ A_End("snap") \/ A_Reappend("snap")
   \/ A_Begin("rw") \/ A_Capture("rw") \/ R_Replace \/ A_End("rw") \/ A_Reappend("rw")
 
@@ -200,12 +213,13 @@ Pending == buf \o shadow \o q \o pend
 \* C14: after a shutdown, a restart reads at least every acknowledged version.  The journal/apply gap
 \* at Begin (a call journaled before Begin but applied after the capture) is the one named deviation.
 Inv_NoAckedLoss ==
-  (wclosed /\ apc = "idle" /\ \A c \in Clients : cpc[c] = "idle")
-     => (dev # {} \/ \A c \in Clients : Recover(snap, file)[c] >= acked[c])
+  (wclosed /\ apc = "idle")
+     => (dev # {} \/ \A c \in Clients : Recover(snap, file)[c] >= ackpre[c])
 
 \* at every instant (not only after Close): every acknowledged version is in the log, the snapshot or in flight
 \* -- unless the gap deviation was exercised
 Covered(c) == \/ acked[c] = 0
+              \/ (wclosed /\ Recover(snap, file)[c] >= ackpre[c])      \* acknowledged while closing: not covered by C14
               \/ Recover(snap, file \o Pending)[c] >= acked[c]
               \/ (apc \in {"snap.captured"} /\ img[c] >= acked[c])
               \/ (apc \in {"rw.captured"} /\ img[c] >= acked[c])
@@ -226,5 +240,5 @@ FileOrdered ==
   \A i, j \in 1..Len(file) : (i < j /\ ~IsReset(file[i]) /\ file[i].c = file[j].c
                                /\ ~\E k \in i..j : IsReset(file[k])) => file[i].v <= file[j].v
 
-Done == wclosed /\ apc = "idle" /\ \A c \in Clients : cpc[c] = "idle"
+Done == wdead /\ apc = "idle" /\ \A c \in Clients : cpc[c] = "idle"
 =============================================================================
